@@ -21,12 +21,13 @@ from . import ops as gops
 
 
 class Inst:
-    __slots__ = ("op", "zero", "valid", "stateprep", "phase_free", "tag", "note", "base", "sym", "cache")
+    __slots__ = ("op", "zero", "valid", "stateprep", "phase_free", "tag", "note", "base", "sym", "cache", "perm")
 
-    def __init__(self, op, zero=(), valid=None, stateprep=False, phase_free=False, tag="", note="", base=None, sym=None):
+    def __init__(self, op, zero=(), valid=None, stateprep=False, phase_free=False, tag="", note="", base=None, sym=None, perm=None):
         self.op, self.zero, self.valid, self.stateprep, self.phase_free, self.tag, self.note = \
             op, list(zero), valid, stateprep, phase_free, tag, note
         self.base, self.sym, self.cache = base, sym, {}
+        self.perm = perm     # documented classical action on basis states: dict wire->bit -> dict wire->bit (independent oracle)
 
 
 def _W(rng, n, off=0):
@@ -65,6 +66,29 @@ def _valid_lt(wires, bound):
             x = 2 * x + bits[w]
         return x < bound
     return f
+
+
+def _rd(bits, wires):
+    x = 0
+    for w in wires:
+        x = 2 * x + bits[w]
+    return x
+
+
+def _wr(bits, wires, val):
+    n = len(wires)
+    for k, w in enumerate(wires):
+        bits[w] = (val >> (n - 1 - k)) & 1
+
+
+def _perm_reg(read, write_wires, f, mod_of=None):
+    """documented arithmetic: register ``write_wires`` <- f(values of the registers in ``read``) (first wire = MSB)"""
+    def perm(bits):
+        out = dict(bits)
+        vals = [_rd(bits, r) for r in read]
+        _wr(out, write_wires, f(*vals))
+        return out
+    return perm
 
 
 def _and(*fs):
@@ -510,9 +534,12 @@ def recipes(qp):  # noqa: C901 - a table
     def adder(rng):
         n = int(rng.integers(2, 4))
         w = _W(rng, n + 2)
-        out = [Inst(qp.Adder(int(rng.integers(0, 2**n)), x_wires=w[:n]))]
+        k0 = int(rng.integers(0, 2**n))
+        out = [Inst(qp.Adder(k0, x_wires=w[:n]), perm=_perm_reg([w[:n]], w[:n], lambda x: (x + k0) % 2**n))]
         mod = int(rng.integers(2**(n - 1) + 1, 2**n))
-        out.append(Inst(qp.Adder(int(rng.integers(0, mod)), x_wires=w[:n], mod=mod, work_wires=w[n:]), zero=w[n:], valid=_valid_lt(w[:n], mod)))
+        k1 = int(rng.integers(0, mod))
+        out.append(Inst(qp.Adder(k1, x_wires=w[:n], mod=mod, work_wires=w[n:]), zero=w[n:], valid=_valid_lt(w[:n], mod),
+                        perm=_perm_reg([w[:n]], w[:n], lambda x: (x + k1) % mod)))
         return out
     R["Adder"] = adder
 
@@ -531,24 +558,31 @@ def recipes(qp):  # noqa: C901 - a table
     def multiplier(rng):
         n = 2
         w = _W(rng, 2 * n + 2)
-        out = [Inst(qp.Multiplier(int(rng.choice([1, 3])), x_wires=w[:n], work_wires=w[n:2 * n]), zero=w[n:2 * n])]
-        out.append(Inst(qp.Multiplier(2, x_wires=w[:n], mod=3, work_wires=w[n:2 * n + 2]), zero=w[n:2 * n + 2], valid=_valid_lt(w[:n], 3)))
+        km = int(rng.choice([1, 3]))
+        out = [Inst(qp.Multiplier(km, x_wires=w[:n], work_wires=w[n:2 * n]), zero=w[n:2 * n],
+                    perm=_perm_reg([w[:n]], w[:n], lambda x: (x * km) % 2**n))]
+        out.append(Inst(qp.Multiplier(2, x_wires=w[:n], mod=3, work_wires=w[n:2 * n + 2]), zero=w[n:2 * n + 2], valid=_valid_lt(w[:n], 3),
+                        perm=_perm_reg([w[:n]], w[:n], lambda x: (x * 2) % 3)))
         return out
     R["Multiplier"] = multiplier
 
     def out_adder(rng):
         w = _W(rng, 8)
-        out = [Inst(qp.OutAdder(w[0:2], w[2:4], w[4:6]))]
+        rd = [w[0:2], w[2:4], w[4:6]]
+        out = [Inst(qp.OutAdder(w[0:2], w[2:4], w[4:6]), perm=_perm_reg(rd, w[4:6], lambda x, y, o: (o + x + y) % 4))]
         out.append(Inst(qp.OutAdder(w[0:2], w[2:4], w[4:6], 3, w[6:8]), zero=w[6:8],
-                        valid=_and(_valid_lt(w[0:2], 3), _valid_lt(w[2:4], 3), _valid_lt(w[4:6], 3))))
+                        valid=_and(_valid_lt(w[0:2], 3), _valid_lt(w[2:4], 3), _valid_lt(w[4:6], 3)),
+                        perm=_perm_reg(rd, w[4:6], lambda x, y, o: (o + x + y) % 3)))
         return out
     R["OutAdder"] = out_adder
 
     def out_multiplier(rng):
         w = _W(rng, 8)
-        out = [Inst(qp.OutMultiplier(w[0:2], w[2:4], w[4:6]))]
+        rd = [w[0:2], w[2:4], w[4:6]]
+        out = [Inst(qp.OutMultiplier(w[0:2], w[2:4], w[4:6]), perm=_perm_reg(rd, w[4:6], lambda x, y, o: (o + x * y) % 4))]
         out.append(Inst(qp.OutMultiplier(w[0:2], w[2:4], w[4:6], 3, w[6:8]), zero=w[6:8],
-                        valid=_and(_valid_lt(w[0:2], 3), _valid_lt(w[2:4], 3), _valid_lt(w[4:6], 3))))
+                        valid=_and(_valid_lt(w[0:2], 3), _valid_lt(w[2:4], 3), _valid_lt(w[4:6], 3)),
+                        perm=_perm_reg(rd, w[4:6], lambda x, y, o: (o + x * y) % 3)))
         return out
     R["OutMultiplier"] = out_multiplier
 
@@ -562,7 +596,8 @@ def recipes(qp):  # noqa: C901 - a table
         nx, ny = int(rng.integers(1, 3)), int(rng.integers(2, 4))
         w = _W(rng, nx + ny + max(ny - 1, 1))
         wk = w[nx + ny:nx + ny + ny - 1]
-        return Inst(qp.SemiAdder(w[:nx], w[nx:nx + ny], wk), zero=wk)
+        xw, yw = w[:nx], w[nx:nx + ny]
+        return Inst(qp.SemiAdder(xw, yw, wk), zero=wk, perm=_perm_reg([xw, yw], yw, lambda x, y: (x + y) % 2**ny))
     R["SemiAdder"] = semi_adder
 
     def incrementer(rng):
@@ -570,7 +605,8 @@ def recipes(qp):  # noqa: C901 - a table
         n = int(rng.integers(1, 5))
         w = _W(rng, n + 2)
         nwk = int(rng.integers(0, 3))
-        return Inst(Incrementer(w[:n], w[n:n + nwk]), zero=w[n:n + nwk])
+        xw = w[:n]
+        return Inst(Incrementer(xw, w[n:n + nwk]), zero=w[n:n + nwk], perm=_perm_reg([xw], xw, lambda x: (x + 1) % 2**n))
     R["Incrementer"] = incrementer
 
     def out_poly(rng):
@@ -803,7 +839,7 @@ def describe(inst):
     return d
 
 
-def workload(ctx, qp, rounds_quick=3, rounds_thorough=16, only=None, rounds=None, start_round=0, shard_classes=True, round_step=1):
+def workload(ctx, qp, rounds_quick=3, rounds_thorough=10, only=None, rounds=None, start_round=0, shard_classes=True, round_step=1):
     """Yield (class name, Inst, rule, source, registry key or 'generated') for this shard.
 
     Pass structure (so that every class is visited before the time budget can run out): round r = for every class of
